@@ -412,6 +412,113 @@ mod proofs {
     }
   }
 
+  /// Kernel variant: ONE call of the real relational matcher (struct built from parts, goal
+  /// `kind: number`, stop rule `kind: comment`, field id 1) on a symbolic tree ANY(nmax) at a
+  /// symbolic node, against the reference `eval`.
+  fn rel_kernel(rel: Rel, stop: Stop, field: bool, nmax: usize) {
+    use ast_grep_config::verif_hooks::{relational, StopBy};
+    use ast_grep_core::matcher::KindMatcher;
+    use ast_grep_core::Matcher;
+    let mut t = any_tree(nmax, 1);
+    let n = t.n;
+    let mut i = 0;
+    while i < MAXN {
+      if i < nmax {
+        let k: u16 = kani::any();
+        kani::assume(k == K_IDENT || k == K_NUMBER || k == K_COMMENT);
+        t.data.nodes[i].kind = k;
+        t.data.nodes[i].named = true;
+        t.data.nodes[i].field = if field && kani::any() { 1 } else { 0 };
+      }
+      i += 1;
+    }
+    t.data.fix_named_counts();
+    // the reference's precondition: a field labels at most one child of a node
+    let mut a = 1;
+    while a < MAXN {
+      let mut b = a + 1;
+      while b < MAXN {
+        if a < n && b < n {
+          kani::assume(!(t.parent[a] == t.parent[b] && t.data.nodes[a].field == 1 && t.data.nodes[b].field == 1));
+        }
+        b += 1;
+      }
+      a += 1;
+    }
+    let x: usize = kani::any();
+    kani::assume(x < n);
+    let want = eval(rel, stop, field, &t.data, &t.parent, n, x);
+    let g = mk_grep(SRC_X, t.data.clone());
+    let goal = Rule::Kind(KindMatcher::from_id(K_NUMBER));
+    let stop_by = match stop {
+      Stop::Neighbor => StopBy::Neighbor,
+      Stop::End => StopBy::End,
+      Stop::Rule => StopBy::Rule(Rule::Kind(KindMatcher::from_id(K_COMMENT))),
+    };
+    let f = if field { Some(1u16) } else { None };
+    let node = node_at(&g, x);
+    let env = ast_grep_core::meta_var::MetaVarEnv::new();
+    let mut cow = std::borrow::Cow::Borrowed(&env);
+    let got = match rel {
+      Rel::Has => {
+        let m = relational::has_struct(goal, stop_by, f);
+        let r = m.match_node_with_env(node, &mut cow).is_some();
+        std::mem::forget(m);
+        r
+      }
+      Rel::Inside => {
+        let m = relational::inside_struct(goal, stop_by, f);
+        let r = m.match_node_with_env(node, &mut cow).is_some();
+        std::mem::forget(m);
+        r
+      }
+      Rel::Follows => {
+        let m = relational::follows_struct(goal, stop_by);
+        let r = m.match_node_with_env(node, &mut cow).is_some();
+        std::mem::forget(m);
+        r
+      }
+      Rel::Precedes => {
+        let m = relational::precedes_struct(goal, stop_by);
+        let r = m.match_node_with_env(node, &mut cow).is_some();
+        std::mem::forget(m);
+        r
+      }
+    };
+    std::mem::forget(cow);
+    std::mem::forget(env);
+    kani::cover!(want);
+    kani::cover!(!want && x > 0);
+    assert!(got == want, "relational rule == reference semantics (stopBy, field)");
+    std::mem::forget(g);
+  }
+
+  macro_rules! rel_k {
+    ($name:ident, $rel:expr, $stop:expr, $field:expr, $n:expr) => {
+      #[kani::proof]
+      #[kani::unwind(10)]
+      #[kani::stub(regex::Regex::new, crate::stub_regex_new)]
+      fn $name() {
+        rel_kernel($rel, $stop, $field, $n);
+      }
+    };
+  }
+  rel_k!(c05k_inside_neighbor_n4, Rel::Inside, Stop::Neighbor, false, 4);
+  rel_k!(c05k_inside_end_n4, Rel::Inside, Stop::End, false, 4);
+  rel_k!(c05k_inside_rule_n4, Rel::Inside, Stop::Rule, false, 4);
+  rel_k!(c05k_inside_field_end_n4, Rel::Inside, Stop::End, true, 4);
+  rel_k!(c05k_inside_field_rule_n4, Rel::Inside, Stop::Rule, true, 4);
+  rel_k!(c05k_has_neighbor_n4, Rel::Has, Stop::Neighbor, false, 4);
+  rel_k!(c05k_has_end_n4, Rel::Has, Stop::End, false, 4);
+  rel_k!(c05k_has_rule_n4, Rel::Has, Stop::Rule, false, 4);
+  rel_k!(c05k_has_field_end_n4, Rel::Has, Stop::End, true, 4);
+  rel_k!(c05k_follows_neighbor_n4, Rel::Follows, Stop::Neighbor, false, 4);
+  rel_k!(c05k_follows_end_n4, Rel::Follows, Stop::End, false, 4);
+  rel_k!(c05k_follows_rule_n4, Rel::Follows, Stop::Rule, false, 4);
+  rel_k!(c05k_precedes_neighbor_n4, Rel::Precedes, Stop::Neighbor, false, 4);
+  rel_k!(c05k_precedes_end_n4, Rel::Precedes, Stop::End, false, 4);
+  rel_k!(c05k_precedes_rule_n4, Rel::Precedes, Stop::Rule, false, 4);
+
   macro_rules! rel_struct {
     ($name:ident, $rel:expr, $stop:expr, $field:expr, $n:expr) => {
       #[kani::proof]
